@@ -51,7 +51,26 @@ func Hazard(t TruthCommit) string {
 			return "path-numstat-like"
 		}
 	}
+	if TailCollision(t) {
+		return "created-or-deleted-path-ends-with-another-changed-path"
+	}
 	return ""
+}
+
+// TailCollision: the commit creates or deletes a path P and changes, without creating or deleting it, a path Q such
+// that P ends with Q (README.md modified while docs/README.md is created).
+func TailCollision(t TruthCommit) bool {
+	for _, p := range t.Changes {
+		if p.Status != "A" && p.Status != "D" {
+			continue
+		}
+		for _, q := range t.Changes {
+			if q.Display != p.Display && q.Status != p.Status && strings.HasSuffix(p.Display, q.Display) {
+				return true
+			}
+		}
+	}
+	return false
 }
 
 func hazardAt(truth []TruthCommit, i int) string {
